@@ -18,7 +18,8 @@ RULE = (
     "Hypothesis draws a utility name and its arguments: sparse matrices 1..8 x 1..8 in csr/csc/coo with "
     "densities {0,.2,.5,.9}, empty lines, unsorted within-line indices, explicit zeros; index sets "
     "sorted/unsorted, with repetition where numpy semantics allow, boolean masks, single ints; run-length "
-    "counts including 0. Oracle = the dense numpy expression of the docstring, exact equality. "
+    "counts including 0; index-pointer intervals free, ordered with overlaps and gaps, or taken from the indptr of a "
+    "compressed matrix for a line list with repetitions. Oracle = the dense numpy expression of the docstring, exact equality. "
     "Non-trivial = matrix with >=2 stored entries, or index/count array of length >=2; distinct = hash of spec."
 )
 BUDGET = {"quick": {"cases": 8000, "seconds": 40}, "thorough": {"cases": 600000, "seconds": 1200}}
@@ -42,6 +43,7 @@ FNS = [
     "expand_indices_nd", "expand_indices_add_increment", "kron", "row_col_data", "optimized_storage",
 ]
 REQUIRED = {f: 0.015 for f in FNS}
+REQUIRED.update({"eip-ordered": 0.003, "eip-indptr": 0.006, "eip-ordered-overlap-and-gap": 0.002})
 
 
 # ----------------------------------------------------------------------------- strategies
@@ -141,9 +143,25 @@ def _spec(draw):
     elif fn == "expand_index_pointers":
         k = draw(st.integers(1, 6))
         mode = draw(st.sampled_from(["nn", "1n", "n1"]))
-        lo = draw(st.lists(st.integers(0, 6), min_size=1 if mode == "1n" else k, max_size=1 if mode == "1n" else k))
-        hi = draw(st.lists(st.integers(0, 8), min_size=1 if mode == "n1" else k, max_size=1 if mode == "n1" else k))
-        s.update(lo=lo, hi=hi)
+        shape = draw(st.sampled_from(["free", "free", "ordered", "indptr", "indptr"]))
+        if shape == "free":
+            lo = draw(st.lists(st.integers(0, 6), min_size=1 if mode == "1n" else k, max_size=1 if mode == "1n" else k))
+            hi = draw(st.lists(st.integers(0, 8), min_size=1 if mode == "n1" else k, max_size=1 if mode == "n1" else k))
+        elif shape == "ordered":
+            # intervals with non-decreasing lower bounds that may overlap, touch or leave gaps
+            lo = sorted(draw(st.lists(st.integers(0, 8), min_size=k, max_size=k)))
+            hi = [a + draw(st.integers(0, 4)) for a in lo]
+        else:
+            # the way the slicing utilities use it: lines of a compressed matrix, picked with repetition
+            counts = draw(st.lists(st.integers(0, 3), min_size=2, max_size=6))
+            indptr = [0]
+            for c in counts:
+                indptr.append(indptr[-1] + c)
+            rows = draw(st.lists(st.integers(0, len(counts) - 1), min_size=1, max_size=6))
+            if draw(st.booleans()):
+                rows = sorted(rows)
+            lo, hi = [indptr[r] for r in rows], [indptr[r + 1] for r in rows]
+        s.update(lo=lo, hi=hi, shape=shape)
     elif fn == "expand_indices_nd":
         s.update(ind=draw(st.lists(st.integers(0, 9), max_size=6)), nd=draw(st.integers(1, 3)),
                  order=draw(st.sampled_from(["F", "C"])))
@@ -358,6 +376,9 @@ def check(s):
         exp = np.concatenate([np.arange(a, b) for a, b in zip(L, H)] + [np.zeros(0, dtype=int)])
         got = ao.expand_index_pointers(lo, hi)
         require_equal(got, exp, "expand-index-pointers", f"lo={s['lo']} hi={s['hi']}")
+        labels.append("eip-" + s.get("shape", "free"))
+        if k >= 3 and np.all(np.diff(L) >= 0) and np.any(L[1:] < H[:-1]) and np.any(L[1:] > H[:-1]):
+            labels.append("eip-ordered-overlap-and-gap")
     elif fn == "expand_indices_nd":
         ind = np.array(s["ind"], dtype=int)
         nd = s["nd"]
